@@ -204,6 +204,13 @@ void set_tz(std::string const& tz)
     setenv("TZ", tz.c_str(), 1);
   }
   tzset();
+  // glibc's mktime keeps a static guess of the UTC offset from its previous call and uses it to resolve local times that
+  // occur twice: without this call the outcome of a case could depend on which cases the worker process ran before it
+  // (and differ in the fresh process of the replay gate). One call on a fixed instant makes it a function of the case.
+  time_t t0 = 0;
+  tm x;
+  localtime_r(&t0, &x);
+  (void)mktime(&x);
 }
 
 // ================================================================================================ C13
